@@ -22,7 +22,7 @@ from overlay import InfraError, log, sh, VERIF, REPO  # noqa: E402
 
 TIERS = {
     # per-harness cap (s), per-harness memory cap (GB), parallel jobs, whole-check cap (s)
-    "quick": {"harness_timeout": 560, "mem_gb": 10, "jobs": 8, "total": 1500},
+    "quick": {"harness_timeout": 560, "mem_gb": 14, "jobs": 8, "total": 1500},
     "thorough": {"harness_timeout": 1500, "mem_gb": 16, "jobs": 8, "total": 7200},
 }
 
